@@ -112,6 +112,16 @@ Proof.
   rewrite Hc. apply decide_is_leaf, Hr.
 Qed.
 
+(* MetricStatSlot.OnCompleted in the model: complete_all gives every breaker of the resource, in
+   order, exactly one on_complete with the entry's (now, rt, err) - one [stat_slot_step] each *)
+Lemma complete_all_once i now rt err c cs b bs :
+  complete_all i now rt err (c :: cs) (b :: bs) =
+  (let '(b1, es) := on_complete c b now rt err in
+   let '(bs1, es') := complete_all (i + 1) now rt err cs bs in
+   (b1 :: bs1, tag i es ++ es'))
+  /\ length (stat_slot_step rt (if err then 1 else 0)) = 1%nat.
+Proof. split; reflexivity. Qed.
+
 (* ---------------------------------------------------------------------------------- *)
 (* pc machine (C12): branches at the loads                                              *)
 
